@@ -103,11 +103,11 @@ def coq_sources():
                   + glob.glob(os.path.join(COQ, "extract", "*.v")))
 
 
-def forbidden_scan():
-    """forbidden vernacular anywhere in the development (comments stripped);
+def forbidden_scan(files=None):
+    """forbidden vernacular in the given files (default: anywhere in the development), comments stripped;
     Variable/Hypothesis/Context only inside a Section."""
     bad = []
-    for f in coq_sources():
+    for f in (coq_sources() if files is None else files):
         src = strip_comments(open(f, encoding="utf-8").read())
         # string literals may legitimately contain anything: blank them
         src_ns = re.sub(r'"(?:[^"]|"")*"', '""', src)
@@ -182,7 +182,9 @@ def build_property(prop, tier):
     res["log_tail"] = out[-1500:]
     closure = dep_closure(pfile)
     res["obligations"] = count_obligations(closure)
-    res["forbidden"] = forbidden_scan()
+    # the verdict looks at everything the property's theorems depend on; the development-wide scan is reported too
+    res["forbidden"] = forbidden_scan(closure)
+    res["forbidden_elsewhere"] = [x for x in forbidden_scan() if x not in res["forbidden"]]
     if rc != 0:
         # count what did build: files of the closure with an up-to-date .vo
         ok_files = [f for f in closure if os.path.exists(f[:-2] + ".vo") and os.path.getmtime(f[:-2] + ".vo") >= os.path.getmtime(f)]
@@ -463,6 +465,7 @@ def main():
         "rule": P.get("rule", ""),
         "samples": samples[:6] if samples else ["(no correspondence cases: see explanation)"],
         "unobserved_diffs": unobserved,
+        "forbidden_vernacular_outside_this_property": proof.get("forbidden_elsewhere", []),
         "known_findings_seen": known_seen,
         "engines": [{"engine": r["engine"], "ok": r.get("ok", False), "error": r.get("error"),
                      "diffs_in_class": len(relevant(r)[0]), "monitor_hits": len(relevant(r)[1]),
